@@ -47,7 +47,7 @@ def logging_oracle(U, kinds, key="sub", number=None, mk=None):
     return FnV("@model", (cb,))
 
 
-def jobs_for(check, mirror, rb, crate, crate_num, U, jobs, tier, KNOWN_PRED):
+def jobs_for(check, mirror, rb, crate, crate_num, U, jobs, tier, KNOWN_PRED, select=None):
     L = 3 if tier == "quick" else 4
     NUM, NULL, BOOL, LIST, CTX, STR = (U.idx(k) for k in ("Number", "Null", "Boolean", "List", "Context", "String"))
     check.bounds += ["closure results: lists of 0..%d items, contexts of 0..2 entries, strings of 0..2 symbolic Unicode scalar values; sub-expression results "
@@ -127,7 +127,8 @@ def jobs_for(check, mirror, rb, crate, crate_num, U, jobs, tier, KNOWN_PRED):
             return out != wout, "%s -> %s, the selected branch alone gives %s" % (expr, out[:100], wout[:100])
         jobs.append(lambda c: decide(c, crate, "ops/if", setup, post, replay, rb, models=MODELS, describe=vdesc(names), need_reach=["reach:then", "reach:else"],
                                      prefer=lambda v: z3.And([U.replayable_pref(v[k]) for k in names]), known_predicates=KNOWN_PRED))
-    if_job()
+    if select is None or 'if_job' in select:
+        if_job()
 
     # ------------------------------------------------------------------------------------------------------------------ filter
     def filter_job():
@@ -237,7 +238,8 @@ def jobs_for(check, mirror, rb, crate, crate_num, U, jobs, tier, KNOWN_PRED):
         jobs.append(lambda c: decide(c, crate, "ops/filter", setup, post, replay, rb, models=MODELS, unwind=6 * (L + 2), describe=desc, budget_s=900,
                                      need_reach=["reach:index", "reach:neg", "reach:boolean"], max_cex=3, known_predicates=KNOWN_PRED,
                                      prefer=lambda v: z3.And([z3.And(c.alts["Number"][0].e >= -10, c.alts["Number"][0].e <= 10) for c in v.get("_calls", [])] or [z3.BoolVal(True)])))
-    filter_job()
+    if select is None or 'filter_job' in select:
+        filter_job()
 
     # ------------------------------------------------------------------------------------------------------------------ path
     def path_jobs():
@@ -363,7 +365,8 @@ def jobs_for(check, mirror, rb, crate, crate_num, U, jobs, tier, KNOWN_PRED):
                                          describe=desc, known_predicates=KNOWN_PRED, prefer=lambda v: z3.And([U.replayable_pref(x) for x in v["_vals"]])))
         ctx_job()
         list_job()
-    path_jobs()
+    if select is None or 'path_jobs' in select:
+        path_jobs()
 
     # ------------------------------------------------------------------------------------------------------------------ list literal
     def list_literal_job():
@@ -401,7 +404,8 @@ def jobs_for(check, mirror, rb, crate, crate_num, U, jobs, tier, KNOWN_PRED):
             return replay_sequence(rb, "[" + ", ".join(texts) + "]", texts)
         jobs.append(lambda c: decide(c, crate, "ops/list_literal", setup, post, replay, rb, models=MODELS, unwind=6 * (L + 2), need_reach=["reach:two"],
                                      describe=desc, known_predicates=KNOWN_PRED, prefer=lambda v: z3.And([U.replayable_pref(x) for x in v["_outs"]])))
-    list_literal_job()
+    if select is None or 'list_literal_job' in select:
+        list_literal_job()
 
     # ------------------------------------------------------------------------------------------------------------------ for / some / every results
     def quantifier_jobs():
@@ -486,7 +490,8 @@ def jobs_for(check, mirror, rb, crate, crate_num, U, jobs, tier, KNOWN_PRED):
             jobs.append(lambda c, which=which, setup=setup, post=post, desc=desc, replay=replay: decide(
                 c, crate, "ops/%s" % which.replace("ExpressionEvaluator", "").lower(), setup, post, replay, rb, models=MODELS, unwind=6 * (L + 2), need_reach=["reach:two"],
                 describe=desc, budget_s=900, known_predicates=KNOWN_PRED, prefer=lambda v: z3.And([U.replayable_pref(c) for c in v.get("_calls", [])] or [z3.BoolVal(True)])))
-    quantifier_jobs()
+    if select is None or 'quantifier_jobs' in select:
+        quantifier_jobs()
 
     # ------------------------------------------------------------------------------------------------------------------ for: order of the iteration contexts
     def for_order_job():
@@ -583,7 +588,168 @@ def jobs_for(check, mirror, rb, crate, crate_num, U, jobs, tier, KNOWN_PRED):
             return got.replace(" ", "") != want.replace(" ", ""), "%s -> %s, specified %s" % (expr, got, want)
         jobs.append(lambda c: decide(c, crate, "ops/for_order", setup, post, replay, rb, models=MODELS, unwind=60, describe=desc, min_paths=4, max_cex=4,
                                      known_predicates=KNOWN_PRED))
-    for_order_job()
+    if select is None or 'for_order_job' in select:
+        for_order_job()
+
+    # ------------------------------------------------------------------------------------------------------------------ context literal
+    def context_literal_job():
+        CE = U.idx("ContextEntry")
+
+        def setup(ex, st):
+            sref, ctxs = scope_value(ex, st, 1)
+            n = ex.fresh_int(st, "usize", "n_entries", constrain=False)
+            ex.assume(st, z3.And(n.e >= 0, n.e <= 3))
+            values = [En("Value", z3.IntVal(NUM), {"Number": (Opaque("FeelNumber", z3.IntVal(700 + k)),)}) for k in range(3)]
+            inputs = dict(n_entries=n.e, _sref=sref, _ctxs=ctxs, _values=values)
+
+            def entry_eval(k):
+                def cb(ex, st, argv):
+                    sc = ex.read(st, sref.cell, sref.projs)
+                    vec = sc.fields[0]
+                    depth = ex.concrete(vec.len)
+                    under = depth is not None and depth >= 1 and vec.items[0] is ctxs[0]
+                    top = vec.items[depth - 1].fields[0] if depth else None
+                    ents = None
+                    if top is not None and ex.concrete(top.len) is not None:
+                        ents = [(ex.concrete(e.fields[0].e), e.fields[1]) for e in top.items[:ex.concrete(top.len)]]
+                    st.log.append(("entry", k, depth, under, ents))
+                    yield st, En("Value", z3.IntVal(CE), {"ContextEntry": (Opaque("Name", z3.IntVal(30 + k)), Ref(ex.new_cell(st, values[k], "box")))})
+                return Ref(ex.new_cell(st, FnV("@model", (cb,)), "box"))
+            # the builder itself is executed on a list of n entry nodes (build_evaluator = the entry oracles), then the closure it returns
+            from mir.models import call_fn_value
+            nodes = [Opaque("AstExpr", ("entry", k)) for k in range(3)]
+            evals = [entry_eval(k) for k in range(3)]
+
+            def m_build_evaluator(ex, st, callee, args, dest_ty):
+                node = deref(ex, st, args[0])
+                if not (isinstance(node, Opaque) and node.sort == "AstExpr"):
+                    raise MirUnsupported("build_evaluator on %r" % (node,))
+                yield st, En("Result", z3.IntVal(0), {"Ok": (evals[node.e[1]],)})
+
+            def runner(ex, st):
+                ex.models.insert(0, (re.compile(r"^build_evaluator$"), m_build_evaluator))
+                for o in ex.run("build_context", [Ref(ex.new_cell(st, VecV(n.e, nodes, "AstNode"), "lhs"))], st):
+                    if o.kind != "return":
+                        yield o
+                        continue
+                    if ex.concrete(o.value.disc) != 0:
+                        yield Outcome("return", o.st, value=None)
+                        continue
+                    yield from call_fn_value(ex, o.st, o.value.alts["Ok"][0], [sref])
+            return runner, None, inputs
+
+        def post(ex, o, v):
+            from checks.C13 import scope_unchanged
+            r = o.value
+            if r is None:
+                return [("the context literal is built", z3.BoolVal(False))]
+            evs = [e for e in o.st.log if e[0] == "entry"]
+            props = [("the caller's scope is restored", scope_unchanged(ex, o.st, v["_sref"], v["_ctxs"])),
+                     ("every entry expression is evaluated once, in order", z3.And(v["n_entries"] == len(evs), z3.BoolVal([e[1] for e in evs] == list(range(len(evs))))))]
+            sees = all(e[2] == 2 and e[3] and e[4] is not None and [(a, b) for a, b in e[4]] == [(30 + j, v["_values"][j]) for j in range(e[1])]
+                       and all(x[1] is v["_values"][j] for j, x in enumerate(e[4])) for e in evs)
+            props.append(("while entry k is evaluated the scope is the caller's scope plus ONE context holding exactly the entries before k", z3.BoolVal(bool(sees))))
+            okr = isinstance(r, En) and ex.concrete(r.disc) == CTX
+            if okr:
+                mp = r.alts["Context"][0].fields[0]
+                m = ex.concrete(mp.len)
+                okr = m == len(evs) and all(ex.concrete(mp.items[j].fields[0].e) == 30 + j and mp.items[j].fields[1] is v["_values"][j] for j in range(m))
+            props.append(("the result is the context of all entries with their values", z3.BoolVal(bool(okr))))
+            props.append(("reach:one_entry", z3.BoolVal(len(evs) == 1)))
+            props.append(("reach:three_entries", z3.BoolVal(len(evs) == 3)))
+            return props
+
+        def replay(i, rb):
+            n = i["n_entries"]
+            body = ", ".join("k%d: %s" % (k, "1" if k == 0 else "k%d + 1" % (k - 1)) for k in range(n))
+            # nested one level so that a leak into the enclosing context shows: the outer entry `k0` must stay 100
+            expr = "{k0: 100, inner: {%s}, after: k0}" % body
+            want = "{after: 100, inner: {%s}, k0: 100}" % ", ".join("k%d: %d" % (k, k + 1) for k in range(n))
+            got = _native_value(rb, expr)
+            return got.replace(" ", "") != want.replace(" ", ""), "%s -> %s, specified %s" % (expr, got[:120], want)
+        jobs.append(lambda c: decide(c, crate, "ops/context_literal", setup, post, replay, rb, models=MODELS, unwind=24, max_cex=3,
+                                     describe=lambda m, v: {"n_entries": model_value(m, v["n_entries"])}, need_reach=["reach:one_entry", "reach:three_entries"],
+                                     known_predicates=KNOWN_PRED))
+    if select is None or "context_literal_job" in select:
+        context_literal_job()
+
+    # ------------------------------------------------------------------------------------------------------------------ user-defined function, positional call
+    def function_positional_job():
+        def setup(ex, st):
+            sref, ctxs = scope_value(ex, st, 1)
+            na = ex.fresh_int(st, "usize", "n_arguments", constrain=False)
+            npar = ex.fresh_int(st, "usize", "n_parameters", constrain=False)
+            ex.assume(st, z3.And(na.e >= 0, na.e <= 3, npar.e >= 0, npar.e <= 3))
+            args = [En("Value", z3.IntVal(NUM), {"Number": (Opaque("FeelNumber", z3.IntVal(500 + k)),)}) for k in range(3)]
+            params = [Adt("tuple", None, (Opaque("Name", z3.IntVal(20 + k)), Opaque("FeelType", ("param", k)))) for k in range(3)]
+            body_result = U.fresh(ex, st, 0, "body", kinds=["Number", "Null", "Boolean"])
+            inputs = dict(n_arguments=na.e, n_parameters=npar.e, _sref=sref, _ctxs=ctxs, _body=body_result)
+
+            def m_coerced(ex, st, callee, a, dest_ty):
+                ty, v = deref(ex, st, a[0]), deref(ex, st, a[1])
+                res = En("Value", z3.IntVal(U.idx("Irrelevant")), {"Irrelevant": ()})
+                st.log.append(("coerced", ty.e if isinstance(ty, Opaque) else None, v, res))
+                yield st, res
+
+            def m_body(ex, st, callee, a, dest_ty):
+                sc = ex.read(st, sref.cell, sref.projs)
+                vec = sc.fields[0]
+                n = ex.concrete(vec.len)
+                under = n == 2 and vec.items[0] is ctxs[0]
+                top = vec.items[n - 1].fields[0] if n else None
+                ents = [(ex.concrete(e.fields[0].e), e.fields[1]) for e in top.items[:ex.concrete(top.len)]] if top is not None else None
+                st.log.append(("body", under, ents))
+                yield st, body_result
+            models = [(re.compile(r"^(dmntk_feel::)?FeelType::coerced$"), m_coerced), (re.compile(r"^(dmntk_feel::)?FunctionBody::evaluate$"), m_body)]
+
+            def runner(ex, st):
+                for m in reversed(models):
+                    ex.models.insert(0, m)
+                yield from ex.run("eval_function_positional", [sref, Ref(ex.new_cell(st, VecV(na.e, args, "Value"), "args")),
+                                                               Ref(ex.new_cell(st, VecV(npar.e, params, "param"), "params")),
+                                                               Ref(ex.new_cell(st, Opaque("FunctionBody"), "body")), Opaque("FeelType", ("result", 0))], st)
+            return runner, None, inputs
+
+        def post(ex, o, v):
+            r = o.value
+            na, npar = v["n_arguments"], v["n_parameters"]
+            bodies = [e for e in o.st.log if e[0] == "body"]
+            co = [e for e in o.st.log if e[0] == "coerced"]
+            from checks.C13 import scope_unchanged
+            props = [("the caller's scope is restored", scope_unchanged(ex, o.st, v["_sref"], v["_ctxs"])),
+                     ("fewer arguments than parameters: null, the body is not evaluated", z3.Implies(na < npar, z3.And(r.disc == NULL, z3.BoolVal(not bodies))))]
+            if bodies:
+                _, under, ents = bodies[0]
+                m = ex.solver.model() if ex.check() == z3.sat else None
+                k = m.eval(npar, model_completion=True).as_long() if m is not None else -1
+                par_co = [c for c in co if isinstance(c[1], tuple) and c[1][0] == "param"]
+                res_co = [c for c in co if isinstance(c[1], tuple) and c[1][0] == "result"]
+                okb = under and ents is not None and len(ents) == k and len(par_co) == k and \
+                    all(ents[j][0] == 20 + j and ents[j][1] is par_co[j][3] and par_co[j][1] == ("param", j) and
+                        isinstance(par_co[j][2], En) and ex.concrete(par_co[j][2].alts["Number"][0].e) == 500 + j for j in range(k))
+                props.append(("the body runs on top of the caller's scope with every parameter bound to its own argument, coerced to the parameter's own type",
+                              z3.And(npar == k, z3.BoolVal(bool(okb)))))
+                props.append(("the result is the body's value coerced to the declared result type",
+                              z3.BoolVal(len(bodies) == 1 and len(res_co) == 1 and res_co[0][2] is v["_body"] and r is res_co[0][3])))
+                props.append(("reach:two_parameters", z3.BoolVal(k >= 2)))
+            props.append(("reach:too_few", na < npar))
+            return props
+
+        def desc(m, v):
+            return {"n_arguments": model_value(m, v["n_arguments"]), "n_parameters": model_value(m, v["n_parameters"])}
+
+        def replay(i, rb):
+            na, npar = i["n_arguments"], i["n_parameters"]
+            ps = ["p%d" % k for k in range(npar)]
+            expr = "(function(%s) [%s])(%s)" % (", ".join(ps), ", ".join(ps), ", ".join(str(500 + k) for k in range(na)))
+            got = _native_value(rb, expr)
+            want = "null" if na < npar else "[" + ", ".join(str(500 + k) for k in range(npar)) + "]"
+            norm = lambda x: re.sub(r"null\([^)]*\)", "null", x).replace(" ", "")
+            return got.startswith("PANIC") or norm(got) != norm(want), "%s -> %s, specified %s" % (expr, got[:100], want)
+        jobs.append(lambda c: decide(c, crate, "ops/function_positional", setup, post, replay, rb, models=MODELS, unwind=24, describe=desc, max_cex=4,
+                                     need_reach=["reach:two_parameters", "reach:too_few"], known_predicates=KNOWN_PRED))
+    if select is None or 'function_positional_job' in select:
+        function_positional_job()
 
     # ------------------------------------------------------------------------------------------------------------------ arithmetic dispatch
     def arith_jobs():
@@ -676,7 +842,8 @@ def jobs_for(check, mirror, rb, crate, crate_num, U, jobs, tier, KNOWN_PRED):
             jobs.append(lambda c, builder=builder, setup=setup, post=post, need=need, desc=desc, prefer=prefer, replay=replay:
                         decide(c, crate_num, "ops/arith_%s" % builder[6:], setup, post, replay, rb, models=AM, need_reach=need, describe=desc, prefer=prefer,
                                known_predicates=KNOWN_PRED, max_cex=3))
-    arith_jobs()
+    if select is None or 'arith_jobs' in select:
+        arith_jobs()
 
 
 def _native_value(rb, text):
